@@ -4,8 +4,13 @@
 From Coq Require Import ZArith List Bool.
 From V Require Import base.Cal gen.RrTables rr.RRBase rr.RRNorm rr.RRMasks rr.RRIter rr.RRSpec
   rr.RRTablesThm rr.RRIterThm rr.RRRegress rr.RRWeekDefs rr.RRWeekThm rr.RRWeekFinal rr.RRWeekCal
-  rr.RRWeekTop rr.RROverlay rr.RREasterThm rr.RRNwdThm rr.RRAdvanceThm rr.RRNwdCal rr.RRDaysetThm rr.RRSubdailyThm rr.RRFilterThm rr.RRFilterSpec rr.RRPassThm rr.RRGateThm rr.RRTimesetThm rr.RRYearlyThm rr.RRYearlyEasterThm rr.RRCountThm rr.RRYearlyCountThm rr.RRYearlyUntilThm rr.RRYearlyMaxThm
-  easter.EasterSpec rr.RRSubNorm rr.RRSubLoop rr.RRSubHour rr.RRSubSpec rr.RRSubHourTop rr.RRSubMin rr.RRSubSec.
+  rr.RRWeekTop rr.RROverlay rr.RREasterThm rr.RRNwdThm rr.RRAdvanceThm rr.RRNwdCal rr.RRDaysetThm rr.RRSubdailyThm rr.RRFilterThm rr.RRFilterSpec rr.RRPassThm rr.RRGateThm rr.RRTimesetThm rr.RRYearlyThm rr.RRYearlyEasterThm rr.RRCountThm rr.RRYearlyCountThm rr.RRYearlyUntilThm rr.RRYearlyMaxThm rr.RRDailyThm
+  easter.EasterSpec rr.RRSubNorm rr.RRSubLoop rr.RRSubHour rr.RRSubSpec rr.RRSubHourTop rr.RRSubMin rr.RRSubSec
+  rr.RRSubMinTop rr.RRSubSecTop rr.RRSubState rr.RRSubNoType rr.RRSubTimes rr.RRSubPass rr.RRSubNorm2 rr.RRSubRunBase
+  rr.RRMonthlyThm rr.RRWeeklyThm rr.RRSubHourRun rr.RRSubMinRun rr.RRSubSecRun rr.RRSubFamily rr.RRSubProps
+  rr.RRSubClose rr.RRSubCloseGen rr.RRSubCloseFam rr.RRSubCloseGen2 rr.RRSubStopFam rr.RRSubSpecCoh rr.RRSubSame
+  rr.RRSubAdvance rr.RRSetposThm rr.RRCoarseRun rr.RRMonthlyFullThm rr.RRMonthlyNthThm rr.RRYearlyFullThm
+  rr.RRDailyFullThm rr.RRWeeklySetposThm.
 Import ListNotations.
 Open Scope Z_scope.
 
@@ -613,6 +618,78 @@ Theorem C01_cands_subdaily_day_periods : forall r j, 1 <= r_interval r ->
 Proof. exact cands_subdaily_day_periods. Qed.
 Print Assumptions C01_cands_subdaily_day_periods.
 
+(* ------------------------------------------------------------------ layer 7: the MONTHLY family *)
+(* the month's day set: None outside the month, Some i inside *)
+Theorem C01_mdayset_correct : forall ii y month,
+  ii_for ii y -> 1 <= month <= 12 ->
+  let st := dbm y month in let en := dbm y (month + 1) in
+  exists ds, mdayset ii month = Ok (ds, st, en) /\
+    ds = repeat None (Z.to_nat st) ++ map Some (zrange st en) ++ repeat None (Z.to_nat (year_len y - en)).
+Proof. exact mdayset_correct. Qed.
+Print Assumptions C01_mdayset_correct.
+
+(* rrule_iter_correct for every MONTHLY rule without BYSETPOS / BYEASTER / nth weekday (BYMONTH, BYMONTHDAY,
+   BYYEARDAY, plain BYDAY, BYWEEKNO in the RFC range; COUNT, UNTIL, any interval and time expansion),
+   EVERY fuel *)
+Theorem C01_rrule_iter_correct_monthly_partial : forall r rl limit n,
+  normalize r = Ok rl -> mfam r ->
+  fst (iterate rl limit n) = fst (spec_iter r limit n).
+Proof. exact monthly_iter_correct. Qed.
+Print Assumptions C01_rrule_iter_correct_monthly_partial.
+
+(* ------------------------------------------------------------------ sub-daily, batches 2 and 3 of builder rset *)
+Theorem C01_minutely_no_typeerror : forall r rl filtered k day,
+  normalize r = Ok rl -> r_freq r = MINUTELY -> 1 <= r_interval r -> 0 <= sp_M0 r <= 59 -> 0 <= k ->
+  (forall l, r_byminute r = Some l -> forall x, In x l -> 0 <= x <= 59) ->
+  let a := min_n r k mod 1440 in
+  minutely_core rl filtered (a / 60) (a mod 60) day <> Err EType.
+Proof. exact minutely_no_typeerror. Qed.
+Print Assumptions C01_minutely_no_typeerror.
+
+Theorem C01_secondly_no_typeerror : forall r rl filtered k day,
+  normalize r = Ok rl -> r_freq r = SECONDLY -> 1 <= r_interval r -> 0 <= sp_S0 r <= 59 -> 0 <= k ->
+  (forall l, r_bysecond r = Some l -> forall x, In x l -> 0 <= x <= 59) ->
+  let a := sec_n r k mod 86400 in
+  secondly_core rl filtered (a / 3600) ((a / 60) mod 60) (a mod 60) day <> Err EType.
+Proof. exact secondly_no_typeerror. Qed.
+Print Assumptions C01_secondly_no_typeerror.
+
+Theorem C01_htimeset_is_spec : forall r rl h, normalize r = Ok rl -> spec_wf r = true -> r_freq r = HOURLY ->
+  0 <= h <= 23 -> in_opt (r_byhour r) (Z.eqb h) = true ->
+  htimeset rl h = Ok (period_times r (h * 3600)).
+Proof. exact htimeset_is_spec. Qed.
+Print Assumptions C01_htimeset_is_spec.
+
+Theorem C01_mtimeset_is_spec : forall r rl h m, normalize r = Ok rl -> spec_wf r = true -> r_freq r = MINUTELY ->
+  0 <= h <= 23 -> 0 <= m <= 59 ->
+  in_opt (r_byhour r) (Z.eqb h) = true -> in_opt (r_byminute r) (Z.eqb m) = true ->
+  mtimeset rl h m = Ok (period_times r (h * 3600 + m * 60)).
+Proof. exact mtimeset_is_spec. Qed.
+Print Assumptions C01_mtimeset_is_spec.
+
+Theorem C01_stimeset_is_spec : forall r h m s, spec_wf r = true -> r_freq r = SECONDLY ->
+  0 <= h <= 23 -> 0 <= m <= 59 -> 0 <= s <= 59 ->
+  in_opt (r_byhour r) (Z.eqb h) = true -> in_opt (r_byminute r) (Z.eqb m) = true ->
+  in_opt (r_bysecond r) (Z.eqb s) = true ->
+  stimeset h m s = Ok (period_times r (h * 3600 + m * 60 + s)).
+Proof. exact stimeset_is_spec. Qed.
+Print Assumptions C01_stimeset_is_spec.
+
+Theorem C01_step_single_day : forall rl s rj,
+  (DAILY <=? freq rl) && (freq rl <=? SECONDLY) = true ->
+  truthy (bysetpos rl) = false ->
+  valid_ymd (c_year s) (c_month s) (c_day s) = true ->
+  let o := ord_of_ymd (c_year s) (c_month s) (c_day s) in
+  let i := o - yearordinal (c_ii s) in
+  0 <= i < yearlen (c_ii s) -> 1 <= o <= max_ord ->
+  day_rejected rl (c_ii s) i = Ok rj ->
+  step rl s =
+  after_gate rl s rj
+    (if rj then (c_out s, c_count s, None)
+     else gate_list rl (map (fun t => (o, t)) (c_timeset s)) (c_count s) (c_out s)).
+Proof. exact step_single_day. Qed.
+Print Assumptions C01_step_single_day.
+
 (* ------------------------------------------------------------------ regression of the repaired defects *)
 (* the four inputs that were `_refuted` witnesses (model <> specification) before /repo commits 83f8e67,
    12b1f51, c760855, 049bb14: the model mirrors the fixed code and now agrees with the specification *)
@@ -635,3 +712,255 @@ Theorem C01_regress_year1 : spec_wf raw_year1 = true /\ agrees raw_year1 100 10 
   hd_error (fst (spec_iter raw_year1 100 10)) = Some (ord_of_ymd 1 1 2, 0).
 Proof. exact regress_year1. Qed.
 Print Assumptions C01_regress_year1.
+
+(* ------------------------------------------------------------------ layer 7: the DAILY family *)
+(* rebuild() within the same year (month change) does not depend on the previous iterinfo *)
+Theorem C01_rebuild_same_year : forall rl y m0 m ii,
+  rebuild rl ii_init y m0 = Ok ii -> 1 <= y <= 9999 -> truthy (bynweekday rl) = false ->
+  rebuild rl ii y m = rebuild rl ii_init y m.
+Proof. exact rebuild_same_year. Qed.
+Print Assumptions C01_rebuild_same_year.
+
+(* rrule_iter_correct for every DAILY rule without BYSETPOS / BYEASTER / nth weekday (BYMONTH, BYMONTHDAY,
+   BYYEARDAY, plain BYDAY, BYWEEKNO in the RFC range; COUNT, UNTIL, any interval and time expansion),
+   EVERY fuel: the cursor of pass k is the day start + k*interval (fixday carry loop), the iterinfo is
+   rebuilt at month changes only *)
+Theorem C01_rrule_iter_correct_daily_partial : forall r rl limit n,
+  normalize r = Ok rl -> dfam r ->
+  fst (iterate rl limit n) = fst (spec_iter r limit n).
+Proof. exact daily_iter_correct. Qed.
+Print Assumptions C01_rrule_iter_correct_daily_partial.
+
+(* ---- WEEKLY *)
+(* the week's day set: from the cursor to the end of its WKST-week, possibly reaching into the 7-day
+   extension of the year's masks *)
+Theorem C01_wdayset_correct : forall rl ii y year month day,
+  ii_for ii y -> 0 <= wkst rl <= 6 -> valid_ymd year month day = true ->
+  let i0 := ord_of_ymd year month day - jan1 y in
+  0 <= i0 < year_len y ->
+  let L := week_rest (weekday_of_ord (jan1 y)) (wkst rl) i0 in
+  exists ds suf,
+    wdayset rl ii year month day = Ok (ds, i0, i0 + L) /\
+    ds = repeat None (Z.to_nat i0) ++ map Some (zrange i0 (i0 + L)) ++ suf /\ 1 <= L <= 7.
+Proof. exact wdayset_correct. Qed.
+Print Assumptions C01_wdayset_correct.
+
+(* day_filter_correct on the EXTENSION: the days of next January that belong to the week that began in
+   year y are filtered with the old year's masks exactly as the specification filters those dates *)
+Theorem C01_day_filter_correct_extension : forall r rl y month ii i,
+  normalize r = Ok rl -> spec_wf r = true -> plain_only r = true ->
+  all_opt (r_byweekno r) weekno_safe = true -> r_byeaster r = None ->
+  1 <= y <= 9999 -> rebuild rl ii_init y month = Ok ii ->
+  year_len y <= i < year_len y + 7 -> used_index (shape_of y) (r_wkst r) i = true ->
+  day_rejected rl ii i = Ok (negb (day_ok r (jan1 y + i))).
+Proof. exact day_filter_ext. Qed.
+Print Assumptions C01_day_filter_correct_extension.
+
+(* rrule_iter_correct for every WEEKLY rule without BYSETPOS / BYEASTER / nth weekday (BYMONTH, BYMONTHDAY,
+   BYYEARDAY, plain BYDAY incl. the default taken from the start, BYWEEKNO in the RFC range; COUNT, UNTIL,
+   any interval, any WKST, time expansion), for every number n of passes whose periods 0 .. n-1 end within
+   9999-12-31 (wlo r k = first day of period k).  _partial: the last, cut-off week of year 9999 is excluded. *)
+Theorem C01_rrule_iter_correct_weekly_partial : forall r rl limit n,
+  normalize r = Ok rl -> wfam r ->
+  (n <> 0%nat -> wlo r (Z.of_nat n - 1) + 6 <= max_ord) ->
+  fst (iterate rl limit n) = fst (spec_iter r limit n).
+Proof. exact weekly_iter_correct. Qed.
+Print Assumptions C01_rrule_iter_correct_weekly_partial.
+
+(* ---- sub-daily families (rset builder): the run theorems *)
+Theorem C01_advance_correct_minutely : forall (r : raw) (rl : rule),
+  normalize r = Ok rl -> r_freq r = MINUTELY -> 1 <= r_interval r -> ne_list (r_byhour r) ->
+  forall (k : Z) (filtered : bool) (day : Z), 0 <= k -> 0 <= sp_S0 r <= 59 ->
+  let od := sp_ord0 r + min_n r k / 1440 in
+  let hour := (min_n r k mod 1440) / 60 in
+  let minute := (min_n r k mod 1440) mod 60 in
+  (filtered = true -> day_ok r od = false) ->
+  match minutely_core rl filtered hour minute day with
+  | Ok (mi', hh', dd', fx') =>
+      exists k', k < k' /\
+        od + (dd' - day) = sp_ord0 r + min_n r k' / 1440 /\ hh' * 60 + mi' = min_n r k' mod 1440 /\
+        0 <= mi' < 60 /\ 0 <= hh' < 24 /\ day <= dd' /\ (fx' = false -> dd' = day) /\
+        in_opt (r_byhour r) (Z.eqb hh') = true /\ in_opt (r_byminute r) (Z.eqb mi') = true /\
+        forall j, k < j < k' -> period_cands r j = []
+  | Err e => (e = EValue \/ e = EType) /\ forall j, k < j -> period_cands r j = []
+  end.
+Proof. exact advance_correct_minutely_top. Qed.
+Print Assumptions C01_advance_correct_minutely.
+
+Theorem C01_advance_correct_secondly : forall (r : raw) (rl : rule),
+  normalize r = Ok rl -> r_freq r = SECONDLY -> 1 <= r_interval r ->
+  ne_list (r_byhour r) -> ne_list (r_byminute r) ->
+  forall (k : Z) (filtered : bool) (day : Z), 0 <= k ->
+  let od := sp_ord0 r + sec_n r k / 86400 in
+  let a := sec_n r k mod 86400 in
+  (filtered = true -> day_ok r od = false) ->
+  match secondly_core rl filtered (a / 3600) ((a / 60) mod 60) (a mod 60) day with
+  | Ok (se', mi', hh', dd', fx') =>
+      exists k', k < k' /\
+        od + (dd' - day) = sp_ord0 r + sec_n r k' / 86400 /\
+        hh' * 3600 + mi' * 60 + se' = sec_n r k' mod 86400 /\
+        0 <= se' < 60 /\ 0 <= mi' < 60 /\ 0 <= hh' < 24 /\ day <= dd' /\ (fx' = false -> dd' = day) /\
+        in_opt (r_byhour r) (Z.eqb hh') = true /\ in_opt (r_byminute r) (Z.eqb mi') = true /\
+        in_opt (r_bysecond r) (Z.eqb se') = true /\
+        forall j, k < j < k' -> period_cands r j = []
+  | Err e => (e = EValue \/ e = EType) /\ forall j, k < j -> period_cands r j = []
+  end.
+Proof. exact advance_correct_secondly_top. Qed.
+Print Assumptions C01_advance_correct_secondly.
+
+(* what the model yields for an HOURLY / MINUTELY / SECONDLY rule of the guarded family is what the
+   until/start/count gate lets through of the candidates of periods 0 .. k_end-1, in order *)
+Theorem C01_hourly_iter_family_partial : forall r rl, normalize r = Ok rl -> sfam r HOURLY ->
+  forall limit n, exists k_end cnt' st out, 0 <= k_end /\
+    gate_list rl (flat_map (period_cands r) (zrange 0 k_end)) (r_count r) [] = (out, cnt', st) /\
+    fst (iterate rl limit n) = rev out.
+Proof. exact hourly_iter_family_partial. Qed.
+Print Assumptions C01_hourly_iter_family_partial.
+
+Theorem C01_minutely_iter_family_partial : forall r rl, normalize r = Ok rl -> sfam r MINUTELY ->
+  forall limit n, exists k_end cnt' st out, 0 <= k_end /\
+    gate_list rl (flat_map (period_cands r) (zrange 0 k_end)) (r_count r) [] = (out, cnt', st) /\
+    fst (iterate rl limit n) = rev out.
+Proof. exact minutely_iter_family_partial. Qed.
+Print Assumptions C01_minutely_iter_family_partial.
+
+Theorem C01_secondly_iter_family_partial : forall r rl, normalize r = Ok rl -> sfam r SECONDLY ->
+  forall limit n, exists k_end cnt' st out, 0 <= k_end /\
+    gate_list rl (flat_map (period_cands r) (zrange 0 k_end)) (r_count r) [] = (out, cnt', st) /\
+    fst (iterate rl limit n) = rev out.
+Proof. exact secondly_iter_family_partial. Qed.
+Print Assumptions C01_secondly_iter_family_partial.
+
+(* ... in terms of the specification only *)
+Theorem C01_subdaily_iter_family_take_partial : forall r rl fr, normalize r = Ok rl -> sfam r fr ->
+  fr = HOURLY \/ fr = MINUTELY \/ fr = SECONDLY ->
+  forall limit n, exists k_end, 0 <= k_end /\
+    fst (iterate rl limit n) =
+    rev (fst (fst (sp_take r (filter (inst_le (sp_start r))
+                                (flat_map (period_cands r) (zrange 0 k_end))) (r_count r) []))).
+Proof. exact subdaily_iter_family_take_partial. Qed.
+Print Assumptions C01_subdaily_iter_family_take_partial.
+
+(* closing statement for sub-daily rules: for every fuel and limit, what the model has yielded is a
+   PREFIX of the specification's sequence (soundness and order of every yielded instant, including the
+   COUNT / UNTIL / year-9999 / ValueError stops).  _partial w.r.t. rrule_iter_correct: the converse
+   (every instant of the specification is eventually yielded) is not proved, and equality at EQUAL fuel
+   is false for sub-daily rules (the model tests `limit` per pass, the specification per day). *)
+Theorem C01_subdaily_prefix_of_spec_partial : forall r rl fr, normalize r = Ok rl -> sfam r fr ->
+  fr = HOURLY \/ fr = MINUTELY \/ fr = SECONDLY ->
+  forall limit n, exists L d rest, fst (spec_iter r L d) = fst (iterate rl limit n) ++ rest.
+Proof. exact subdaily_prefix_of_spec. Qed.
+Print Assumptions C01_subdaily_prefix_of_spec_partial.
+
+(* ---- sub-daily (rset builder): the converse, the stream equality, the advance step as one statement *)
+Theorem C01_subdaily_spec_prefix_of_iterate : forall r rl fr, normalize r = Ok rl -> sfam r fr ->
+  fr = HOURLY \/ fr = MINUTELY \/ fr = SECONDLY ->
+  forall L d, exists limit n rest, fst (iterate rl limit n) = fst (spec_iter r L d) ++ rest.
+Proof. exact subdaily_spec_prefix_of_iterate. Qed.
+Print Assumptions C01_subdaily_spec_prefix_of_iterate.
+
+(* rrule_iter_correct for the sub-daily families, as equality of the two STREAMS (position by position,
+   unbounded in limit / fuel / days); equality at equal fuel is false for sub-daily rules *)
+Theorem C01_rrule_iter_correct_subdaily_stream_partial : forall r rl fr, normalize r = Ok rl -> sfam r fr ->
+  fr = HOURLY \/ fr = MINUTELY \/ fr = SECONDLY ->
+  forall i x,
+    (exists limit n, nth_error (fst (iterate rl limit n)) i = Some x) <->
+    (exists L d, nth_error (fst (spec_iter r L d)) i = Some x).
+Proof. exact subdaily_iter_correct_family. Qed.
+Print Assumptions C01_rrule_iter_correct_subdaily_stream_partial.
+
+Theorem C01_subdaily_nth_agree : forall r rl fr, normalize r = Ok rl -> sfam r fr ->
+  fr = HOURLY \/ fr = MINUTELY \/ fr = SECONDLY ->
+  forall limit n L d i x y,
+    nth_error (fst (iterate rl limit n)) i = Some x ->
+    nth_error (fst (spec_iter r L d)) i = Some y -> x = y.
+Proof. exact subdaily_nth_agree. Qed.
+Print Assumptions C01_subdaily_nth_agree.
+
+(* the specification's sequence does not depend on limit / fuel (any two runs are prefix-comparable) *)
+Theorem C01_spec_iter_comparable : forall r L d L' d',
+  is_prefix (fst (spec_iter r L d)) (fst (spec_iter r L' d')) \/
+  is_prefix (fst (spec_iter r L' d')) (fst (spec_iter r L d)).
+Proof. exact spec_iter_comparable. Qed.
+Print Assumptions C01_spec_iter_comparable.
+
+Theorem C01_advance_correct_subdaily : forall r rl fr, normalize r = Ok rl -> sfam r fr ->
+  fr = HOURLY \/ fr = MINUTELY \/ fr = SECONDLY ->
+  forall s k cnt out, den_sub r rl s k ->
+  match advance rl s (filt_sub r k) cnt out with
+  | Ok (AdvGo s') =>
+      exists k', k < k' /\ den_sub r rl s' k' /\ (forall j, k < j < k' -> period_cands r j = []) /\
+                 c_count s' = cnt /\ c_out s' = out
+  | Ok AdvFuel => False
+  | Ok AdvMax => dead_after r k
+  | Err _ => dead_after r k
+  end.
+Proof. exact advance_correct_subdaily. Qed.
+Print Assumptions C01_advance_correct_subdaily.
+
+(* ---- BYSETPOS *)
+(* the poslist loop (divmod positions, IndexError swallowed, `not in poslist`, sort) is the specification's
+   selection by 1-based position / position from the end, on the period's candidate list *)
+Theorem C01_poslist_is_select_pos : forall yo ts P poss, (0 < length ts)%nat ->
+  ssorted P = true -> ssorted ts = true ->
+  (forall i, In i P -> from_ordinal (yo + i) = Ok (yo + i)) ->
+  forallb (fun p => negb (p =? 0)) poss = true ->
+  let C := cand_list yo ts P in
+  exists pl, poslist_build yo P ts poss [] = Ok pl /\
+             sort_inst pl = select_pos_aux poss (zlen C) 0 C.
+Proof. exact poslist_is_select_pos. Qed.
+Print Assumptions C01_poslist_is_select_pos.
+
+(* ---- the loop theorems with BYSETPOS and nth weekdays *)
+(* every MONTHLY rule of the specification's domain without BYEASTER (BYWEEKNO in the RFC range): plain and
+   nth weekdays, BYSETPOS, COUNT, UNTIL, any interval; EVERY fuel *)
+Theorem C01_rrule_iter_correct_monthly_all_partial : forall r rl limit n,
+  normalize r = Ok rl -> mfam_all r ->
+  fst (iterate rl limit n) = fst (spec_iter r limit n).
+Proof. exact monthly_iter_correct_all. Qed.
+Print Assumptions C01_rrule_iter_correct_monthly_all_partial.
+
+(* YEARLY without BYEASTER: plain BYDAY with anything else, or nth weekdays without BYMONTH; BYSETPOS free;
+   EVERY fuel *)
+Theorem C01_rrule_iter_correct_yearly_full_partial : forall r rl limit n,
+  normalize r = Ok rl -> yfam_all r ->
+  fst (iterate rl limit n) = fst (spec_iter r limit n).
+Proof. exact yearly_iter_correct_full. Qed.
+Print Assumptions C01_rrule_iter_correct_yearly_full_partial.
+
+(* DAILY with BYSETPOS (selection inside the day's time set); EVERY fuel *)
+Theorem C01_rrule_iter_correct_daily_setpos_partial : forall r rl limit n,
+  normalize r = Ok rl -> dfam_s r ->
+  fst (iterate rl limit n) = fst (spec_iter r limit n).
+Proof. exact daily_setpos_iter_correct. Qed.
+Print Assumptions C01_rrule_iter_correct_daily_setpos_partial.
+
+(* WEEKLY with BYSETPOS (fix 12b1f51: the first period starts at the week start): weeks within 9999-12-31,
+   and -- with BYSETPOS -- a first week that begins on or after 0001-01-01 *)
+Theorem C01_rrule_iter_correct_weekly_setpos_partial : forall r rl limit n,
+  normalize r = Ok rl -> wfam_s r -> (r_bysetpos r <> None -> 1 <= ws0 r) ->
+  (n <> 0%nat -> wlo r (Z.of_nat n - 1) + 6 <= max_ord) ->
+  fst (iterate rl limit n) = fst (spec_iter r limit n).
+Proof. exact weekly_iter_correct_full. Qed.
+Print Assumptions C01_rrule_iter_correct_weekly_setpos_partial.
+
+(* SUMMARY for FREQ in YEARLY..DAILY: model = specification at equal fuel for every rule of the domain with
+   BYWEEKNO in the RFC range, without BYEASTER, whose BYDAY is plain (MONTHLY: any; YEARLY: nth weekdays
+   allowed when there is no BYMONTH); WEEKLY additionally: weeks within the representable range *)
+Theorem C01_rrule_iter_correct_coarse_partial : forall r rl limit n,
+  normalize r = Ok rl -> spec_wf r = true ->
+  all_opt (r_byweekno r) weekno_safe = true -> r_byeaster r = None ->
+  (r_freq r = YEARLY /\ (plain_only r = true \/ r_bymonth r = None)) \/
+  r_freq r = MONTHLY \/
+  (r_freq r = WEEKLY /\ plain_only r = true /\ (r_bysetpos r <> None -> 1 <= ws0 r) /\
+   (n <> 0%nat -> wlo r (Z.of_nat n - 1) + 6 <= max_ord)) \/
+  (r_freq r = DAILY /\ plain_only r = true) ->
+  fst (iterate rl limit n) = fst (spec_iter r limit n).
+Proof.
+  intros r rl limit n HN HW Hs He [[Hf Hk]|[Hf|[(Hf & Hp & Hw & Hn)|[Hf Hp]]]].
+  - apply (yearly_iter_correct_full r rl limit n HN). constructor; assumption.
+  - apply (monthly_iter_correct_all r rl limit n HN). constructor; assumption.
+  - apply (weekly_iter_correct_full r rl limit n HN); [constructor; assumption|exact Hw|exact Hn].
+  - apply (daily_setpos_iter_correct r rl limit n HN). constructor; assumption.
+Qed.
+Print Assumptions C01_rrule_iter_correct_coarse_partial.
